@@ -1,7 +1,7 @@
 SPECIFICATION Spec
 CONSTANTS NU = 1  NG = 0  NC = 2  MaxOps = 5  Spurious = FALSE
   Amts <- A1  Ops <- OpsNone  KickSets <- KS1
-  ClearAtomic = TRUE  LogAtomic = TRUE  KickConsume = TRUE  OfflineOnVeto = FALSE  CloseOnLateVeto = TRUE  OnlineFloor = TRUE
+  ClearAtomic = TRUE  LogAtomic = TRUE  KickConsume = TRUE  OfflineOnVeto = FALSE  CloseOnLateVeto = TRUE  AuthAtomic = TRUE  OnlineFloor = TRUE
 INVARIANT NoViolation
 VIEW View
 CHECK_DEADLOCK FALSE
